@@ -93,6 +93,12 @@ def plan(beh, j):
         return response(R, "204") + b"stray-body", [], False
     if beh == "silent-close":
         return b"", [], True
+    if beh == "surplus-partial-same":
+        # the start of a further response head glued to the end of the answer
+        return response(R) + response(S)[:25], [], False
+    if beh == "bare101-later":
+        # a 101 without any upgrade: final for the caller; the peer then says more while the connection idles
+        return b"HTTP/1.1 101 Switching Protocols\r\nX-Stamp: %s\r\n\r\n" % R.encode(), [response(S)], False
     raise KeyError(beh)
 
 
@@ -206,9 +212,9 @@ class Scen:
         # layout bookkeeping: which byte ranges are the genuine answer to j
         own = response(f"R{j}", "cl")
         own_len = len(data)
-        for b in ("surplus-same", "surplus-same-chunked", "204-surplus"):
+        for b in ("surplus-same", "surplus-same-chunked", "204-surplus", "surplus-partial-same"):
             if self.behs[j % len(self.behs)] == b:
-                own_len = len(data) - (len(response(f"STALE{j}")) if b != "204-surplus" else len(b"stray-body"))
+                own_len = len(data) - (25 if b == "surplus-partial-same" else len(response(f"STALE{j}")) if b != "204-surplus" else len(b"stray-body"))
         self.sent_map.setdefault(c, []).append((base, base + own_len, j))
         if own_len < len(data):
             self.sent_map[c].append((base + own_len, base + len(data), None))
@@ -235,8 +241,14 @@ class Scen:
             # an exchange is open on it whose answer has not fully arrived yet: then
             # the client cannot tell them from (the beginning of) that answer
             for (s, e, j) in self.sent_map.get(c, []):
-                if j is None and s < before + len(data) and e > before and not self._exchange_open(c, before):
-                    self._taint(c, "had received stray bytes")
+                if j is None and s < before + len(data) and e > before:
+                    owner = next((jj for (_s2, e2, jj) in self.sent_map.get(c, []) if jj is not None and e2 == s), None)
+                    latest = max(((t, j2) for j2, acqs in self.acq.items() for (t, cc) in acqs if cc == c), default=(0, None))[1]
+                    if owner is not None and owner == latest:
+                        # glued to the end of an answer: beyond the end of that response, whoever is waiting
+                        self._taint(c, "had received bytes beyond the end of a response")
+                    elif not self._exchange_open(c, before):
+                        self._taint(c, "had received stray bytes")
 
     def _exchange_open(self, c, delivered_before):
         for j, acqs in self.acq.items():
@@ -344,7 +356,7 @@ class Scen:
                     continue  # stray bytes arrived after the request owned the connection: indistinguishable from its answer
                 kind = "stale-bytes-delivered-as-response" if stamp.startswith("STALE") else "response-of-another-request"
                 self.P(kind, f"request {j} received the response stamped {stamp} (acquired {acqs}, deliveries {self.deliv}, results {self.results})")
-            elif mode == "read" and body != (b"" if status == 204 else b"body-" + want.encode()):
+            elif mode == "read" and body != (b"" if status in (204, 101) else b"body-" + want.encode()):
                 beh = self.behs[j % len(self.behs)]
                 full = b"body-" + want.encode()
                 if beh == "eof" and full.startswith(body) and any(
@@ -392,7 +404,7 @@ def factory(case, loop):
 
 
 STRAY = ["surplus-same", "surplus-same-chunked", "surplus-later", "partial-stray-later", "garbage-later", "crlf-later",
-         "two-stale-later", "1xx-late", "conn-close-then-stale", "204-surplus"]
+         "two-stale-later", "1xx-late", "conn-close-then-stale", "204-surplus", "surplus-partial-same", "bare101-later"]
 PLAIN = ["exact", "chunked", "1xx", "eof", "conn-close", "trunc", "close-after", "204", "silent-close"]
 
 
